@@ -602,8 +602,7 @@ func (hp *HTTPProxy) directDomains(fn ProxyFunc) ProxyFunc {
 	}
 
 	return func(req *http.Request) (*url.URL, error) {
-		// Match the name as written by the client and the name the transport will connect to.
-		if h := req.URL.Hostname(); hp.config.DirectDomains.Match(h) || hp.config.DirectDomains.Match(asciiHostname(h)) {
+		if matchesAnyForm(hp.config.DirectDomains, req.URL.Hostname()) {
 			return nil, nil
 		}
 		return fn(req)
